@@ -37,6 +37,10 @@ THEOREMS = ["Claripy.Props.C12.C12_mro_child", "Claripy.Props.C12.C12_mro_compos
             "Claripy.Solver.childSplit_spec", "Claripy.Solver.split_go_spec", "Claripy.Solver.child_add_marks",
             "Claripy.Solver.mcInv_of_trivMarks", "Claripy.Solver.part_marker_const", "Claripy.Solver.childUpdate_step",
             "Claripy.Solver.storeAll_get_part", "Claripy.Solver.storeAll_get_other",
+            # min / max: footprint of the child's min / max (class one stage down, frame-only _extrema), composite theorems
+            "Claripy.Props.C12.C12_max_correct", "Claripy.Props.C12.C12_min_correct", "Claripy.Props.C12.C12_child_footprint_extrema",
+            "Claripy.Solver.z3Extrema_l1", "Claripy.Solver.child_extremum_foot", "Claripy.Solver.compExtremum_step",
+            "Claripy.Solver.comp_histX",
             "Claripy.Solver.CInv.of_world", "Claripy.Solver.compQuery_keeps", "Claripy.Solver.compTruth_keeps",
             "Claripy.Solver.solverForNames_one", "Claripy.Solver.child_truth_foot", "Claripy.Solver.MCInv.evalExh",
             "Claripy.Solver.MCInv.opt"]
